@@ -278,8 +278,18 @@ def check_mstep(R, s, model, aff, qf, where):
         if 'fixed_covariance' in s.opts:
             R.check(mon, np.array_equal(model.gaussian.covariance, s.opts['fixed_covariance']), f'mstep/{kind}/fixed-covariance', f'{where}: fixed covariance not kept', **info)
         else:
-            vfloor = 1e-6 * float(np.median(np.var(np.asarray(s.data['e'] if kind == 'gcacgmm' else y, dtype=float), axis=-2)))   # per-coordinate spread; a common offset must not inflate it
-            R.check(mon, rel(model.gaussian.covariance, cov, vfloor) <= tol * 10, f'mstep/{kind}/gaussian-covariance', f'{where}: Gaussian covariances ({ct}) are not the posterior-weighted scatter (rel {rel(model.gaussian.covariance, cov, vfloor):.2e})', **info)
+            xg = np.asarray(s.data['e'] if kind == 'gcacgmm' else y)
+            vfloor = 1e-6 * float(np.median(np.var(xg.astype(float), axis=-2)))   # per-coordinate spread; a common offset must not inflate it
+            # rounding of x - mean for observations of magnitude M: every centred value carries an absolute error ~ eps M, hence the
+            # scatter an error ~ eps M sqrt(cov) + (eps M)^2 (matters for classes whose spread is at the resolution of the offset)
+            epsM = 64 * float(np.finfo(xg.dtype).eps) * float(np.abs(xg).max())
+            a, b = np.asarray(model.gaussian.covariance, dtype=float), np.asarray(cov, dtype=float)
+            if a.shape != b.shape:
+                dv = np.inf
+            else:
+                sc = max(float(np.abs(b).max()), vfloor, 1e-300)
+                dv = float(np.abs(a - b).max() / (tol * 10 * sc + epsM * np.sqrt(sc) + epsM ** 2))
+            R.check(mon, dv <= 1, f'mstep/{kind}/gaussian-covariance', f'{where}: Gaussian covariances ({ct}) are not the posterior-weighted scatter (deviation {dv:.2e} x tolerance)', **info)
     if kind in ('vmfmm', 'vmfcacgmm'):
         kmin, kmax = s.opts.get('min_concentration', 1e-10), s.opts.get('max_concentration', 500)
         if kind == 'vmfmm':
